@@ -17,7 +17,17 @@ import (
 // EnsureDirExists creates directories if the path not exists
 func EnsureDirExists(path string) error {
 	if _, err := os.Stat(path); os.IsNotExist(err) {
-		return os.MkdirAll(path, dirPerm)
+		if err := os.MkdirAll(filepath.Dir(path), dirPerm); err != nil {
+			return err
+		}
+		// mkdir decides atomically who created the group when several callers race for the same name
+		if err := os.Mkdir(path, dirPerm); err != nil {
+			if os.IsExist(err) {
+				return os.ErrExist
+			}
+			return err
+		}
+		return nil
 	}
 	return os.ErrExist
 }
